@@ -1,4 +1,348 @@
 import DEngine.Model.Proto
 import DEngine.Model.Memb
-def main (_args : List String) : IO UInt32 := do
-  IO.eprintln "drv_memb: not built yet"; return 2
+import DEngine.Model.Commit
+open DEngine DEngine.Proto DEngine.Memb DEngine.Commit
+
+namespace DEngine.MembDrv
+
+def parseRole (s : String) : Option Nat :=
+  if s == "f" then some 1 else if s == "c" then some 2 else if s == "L" then some 3
+  else if s == "l" then some 4 else if s == "u" then some 0 else none
+
+def parseStatus (s : String) : Option Nat :=
+  if s == "a" then some 3 else if s == "p" then some 1 else if s == "r" then some 2
+  else if s == "u" then some 0 else none
+
+def parseNode (s : String) : Option Node :=
+  match s.splitOn ":" with
+  | [i, r, st] => do pure { id := ← i.toNat?, role := ← parseRole r, status := ← parseStatus st }
+  | _ => none
+
+def parseNodes (s : String) : Option (List Node) :=
+  if s.isEmpty || s == "-" then some [] else (s.splitOn ",").mapM parseNode
+
+def parseChange (p : List String) : Option Change :=
+  match p with
+  | ["add", i, st] => do pure (.add (← i.toNat?) (← parseStatus st))
+  | ["rm", i] => do pure (.remove (← i.toNat?))
+  | ["pro", i] => do pure (.promote (← i.toNat?))
+  | ["bp", is] => do pure (.batchPromote (← natList is) sActive)
+  | ["bp", is, st] => do pure (.batchPromote (← natList is) (← parseStatus st))
+  | ["br", is] => do pure (.batchRemove (← natList is))
+  | ["nil"] => some .nil
+  | _ => none
+
+def splitCase (line : String) : String × List String :=
+  match line.splitOn "|" with
+  | [h] => (h, [])
+  | [h, o] => (h, (o.splitOn ";").filter (· ≠ ""))
+  | _ => ("", [])
+
+def evs (l : List String) : String := if l.isEmpty then "-" else ",".intercalate l
+
+/-! ## kind `view` -/
+
+def viewRecord (self : Nat) (initialLen : Nat) (v : View) (err : String) : String :=
+  s!"M[{showNodes v.nodes}] V[{showIds ((voters self v.nodes).map (·.id))}] P[{showIds ((replicationPeers self v.nodes).map (·.id))}] v{v.ver} s{if initialLen == 1 then 1 else 0} e[{if err.isEmpty then "-" else err}]"
+
+def viewRun (self : Nat) (n0 : Nat) : View → List String → List String → List String → List String × List String
+  | _, [], recs, tags => (recs.reverse, tags.reverse)
+  | v, op :: rest, recs, tags =>
+    let p := op.splitOn ":"
+    match p with
+    | ["rj", i, r] =>
+      match i.toNat?, parseRole r with
+      | some i, some r =>
+        let res := match canRejoin v i r with | none => "rj-ok" | some t => "rj-" ++ t
+        viewRun self n0 v rest (viewRecord self n0 v res :: recs) (res :: tags)
+      | _, _ => viewRun self n0 v rest (viewRecord self n0 v "bad-op" :: recs) ("bad-op" :: tags)
+    | _ =>
+      match parseChange p with
+      | some c =>
+        let r := applyChange v c
+        let err := match r.2.1 with | some e => e.tag | none => ""
+        viewRun self n0 r.1 rest (viewRecord self n0 r.1 err :: recs) (r.2.2 :: tags)
+      | none => viewRun self n0 v rest (viewRecord self n0 v "bad-op" :: recs) ("bad-op" :: tags)
+
+def modelView (fs : List (String × String)) (ops : List String) : Option (String × String) := do
+  let self ← natField fs "self"
+  let nodes ← parseNodes ((lookup fs "nodes").getD "-")
+  let v : View := { nodes := nodes }
+  let (recs, tags) := viewRun self nodes.length v ops [viewRecord self nodes.length v ""] []
+  pure (" | ".intercalate recs, ",".intercalate tags.eraseDups)
+
+/-! ## kind `cl` -/
+
+def parseClOp (op : String) : ClOp :=
+  let r : Option ClOp := match op.splitOn ":" with
+    | ["P", is] => do pure (.promote (← natList is))
+    | ["J", i, st, ro] => do pure (.join (← i.toNat?) (← parseStatus st) (← parseRole ro))
+    | ["S", i] => do pure (.stale (← i.toNat?))
+    | ["A", n, k] => do pure (.apply (← n.toNat?) (← k.toNat?))
+    | _ => none
+  r.getD .bad
+
+def clRecord (c : Cluster) (ev : List String) : String :=
+  let g := if c.glog.isEmpty then "-" else "/".intercalate (c.glog.map Change.show)
+  let a := ",".intercalate (c.nodes.map fun n => s!"{n.id}:{n.applied}")
+  let q := ";".intercalate (c.nodes.map fun n => s!"{n.id}:{match voterSet n with | some vs => showIds vs | none => "-"}")
+  s!"g[{g}] a[{a}] q[{q}] e[{evs ev}]"
+
+def clRun : Cluster → List ClOp → List String → List String → List String × List String
+  | _, [], recs, tags => (recs.reverse, tags.reverse)
+  | c, op :: rest, recs, tags =>
+    let r := clStep c op
+    clRun r.1 rest (clRecord r.1 r.2.1 :: recs) (r.2.2 :: tags)
+
+def modelCl (fs : List (String × String)) (ops : List String) : Option (String × String) := do
+  let lead ← natField fs "lead"
+  let nodes ← parseNodes ((lookup fs "nodes").getD "-")
+  let c := initCluster lead nodes
+  let (recs, tags) := clRun c (ops.map parseClOp) [clRecord c []] []
+  pure (" | ".intercalate recs, ",".intercalate tags.eraseDups)
+
+/-! ## kind `rs` -/
+
+def parseRsOp (op : String) : RsOp :=
+  if op == "x" then .cmd
+  else if op == "restart" then .restart
+  else if op.startsWith "c:" then
+    match parseChange ((op.drop 2).toString.splitOn ":") with
+    | some c => .conf c
+    | none => .bad
+  else if op.startsWith "commit:" then
+    match (op.drop 7).toString.toNat? with
+    | some k => .commit k
+    | none => .bad
+  else .bad
+
+def rsRun : RsNode → List RsOp → List String → List String → List String × List String
+  | _, [], recs, tags => (recs.reverse, tags.reverse)
+  | s, op :: rest, recs, tags =>
+    let r := rsStep s op
+    rsRun r.1 rest (rsRecord r.1 :: recs) (r.2 :: tags)
+
+def modelRs (fs : List (String × String)) (ops : List String) : Option (String × String) := do
+  let nodes ← parseNodes ((lookup fs "nodes").getD "-")
+  let s : RsNode := { initial := nodes, view := { nodes := nodes } }
+  let (recs, tags) := rsRun s (ops.map parseRsOp) [rsRecord s] []
+  pure (" | ".intercalate recs, ",".intercalate tags.eraseDups)
+
+/-! ## kind `lr` -/
+
+def parseLrOp (op : String) : LearnerOp :=
+  let p := op.splitOn ":"
+  match p with
+  | ["vote", t, _c, _li, _lt] => match t.toNat? with | some t => .vote t | none => .bad
+  | ["tick"] => .tick
+  | _ => match parseChange p with | some c => .change c | none => .bad
+
+def lrRecord (s : Learner) (g : Option Bool) (ev : List String) : String :=
+  let gs := match g with | none => "-" | some true => "1" | some false => "0"
+  let m := match find? s.view.nodes s.self with | some me => roleCh me.role | none => "-"
+  s!"g{gs} t{s.term} x{if learnerTimerExpired s then 1 else 0} m{m} e[{evs ev}]"
+
+def lrRun : Learner → List LearnerOp → List String → List String
+  | _, [], recs => recs.reverse
+  | s, op :: rest, recs =>
+    let r := learnerStep s op
+    lrRun r.1 rest (lrRecord r.1 r.2.1 r.2.2 :: recs)
+
+def modelLr (fs : List (String × String)) (ops : List String) : Option (String × String) := do
+  let self ← natField fs "self"
+  let t ← natField fs "t"
+  let nodes ← parseNodes ((lookup fs "nodes").getD "-")
+  let s : Learner := { self := self, term := t, view := { nodes := nodes } }
+  let lops := ops.map parseLrOp
+  let tags := lops.map fun o => match o with
+    | .vote _ => "lr:vote" | .tick => "lr:tick" | .change _ => "lr:change" | .bad => "bad-op"
+  pure (" | ".intercalate (lrRun s lops [lrRecord s none []]), ",".intercalate tags.eraseDups)
+
+/-! ## kind `jn` -/
+
+def parseJnOp (op : String) : JnOp :=
+  let r : Option JnOp := match op.splitOn ":" with
+    | ["join", i, ro, st] => do pure (.join (← i.toNat?) (← parseRole ro) (← parseStatus st))
+    | ["ok", p, t, m] => do pure (.ack (← p.toNat?) (← t.toNat?) (← m.toNat?))
+    | ["fl", d] => do pure (.flushed (← d.toNat?))
+    | _ => none
+  r.getD .bad
+
+def jnRunAll : JoinSt → List JnOp → List String → List String → Option (List String × List String)
+  | _, [], recs, tags => some (recs.reverse, tags.reverse)
+  | s, op :: rest, recs, tags =>
+    match jnStep s op with
+    | none => none
+    | some (s', ev, tag) => jnRunAll s' rest (jnRecord s' ev :: recs) (tag :: tags)
+
+def jnInit (fs : List (String × String)) : Option JoinSt := do
+  let t ← natField fs "t"
+  let log ← natList ((lookup fs "log").getD "-")
+  let nodes ← parseNodes ((lookup fs "nodes").getD "-")
+  pure { leader := initLeader t 0 1 log nodes }
+
+def modelJn (fs : List (String × String)) (ops : List String) : Option (String × String) := do
+  let s ← jnInit fs
+  match jnRunAll s (ops.map parseJnOp) [jnRecord s []] [] with
+  | none => pure ("panic", "panic")
+  | some (recs, tags) => pure (" | ".intercalate recs, ",".intercalate (tags.map ("jn:" ++ ·)).eraseDups)
+
+def modelLine (line : String) : String :=
+  let (head, ops) := splitCase line
+  let fs := fields head
+  let r := match lookup fs "k" with
+    | some "view" => modelView fs ops
+    | some "cl" => modelCl fs ops
+    | some "rs" => modelRs fs ops
+    | some "lr" => modelLr fs ops
+    | some "jn" => modelJn fs ops
+    | _ => some ("bad-kind", "-")
+  match r with
+  | some (o, t) => o ++ "\t" ++ t
+  | none => "bad-case\t-"
+
+/-! ## monitors (evaluated on the implementation's records) -/
+
+def bracket (rec : String) (key : String) : Option String :=
+  -- value of `key[...]` inside a record (fields separated by spaces, no spaces inside brackets)
+  (rec.splitOn " ").findSome? fun tok =>
+    if tok.startsWith (key ++ "[") && tok.endsWith "]" then some ((tok.drop (key.length + 1)).dropEnd 1).toString else none
+
+def numField (rec : String) (key : String) : Option Nat :=
+  (rec.splitOn " ").findSome? fun tok =>
+    if tok.startsWith key then (tok.drop key.length).toString.toNat? else none
+
+/-- C26: in every observed state, no two nodes' own voter sets admit disjoint majorities -/
+def monitorC26 (fs : List (String × String)) (out : String) : String :=
+  if lookup fs "k" != some "cl" then "skip"
+  else
+    let recs := out.splitOn " | "
+    let bad := recs.findSome? fun rec =>
+      match bracket rec "q" with
+      | none => some "unparsable-output"
+      | some q =>
+        let parsed : Option (List (Option (Nat × List Nat))) := (q.splitOn ";").mapM fun (e : String) =>
+          match e.splitOn ":" with
+          | [n, vs] =>
+            if vs == "-" then some none
+            else match n.toNat?, natList vs with
+              | some n, some l => some (some (n, l))
+              | _, _ => none
+          | _ => none
+        let sets : Option (List (Nat × List Nat)) := parsed.map fun l => l.filterMap id
+        match sets with
+        | none => some "unparsable-output"
+        | some sets => (disjointPair sets).map fun _ => "disjoint-quorums"
+    match bad with
+    | some sig => "bad " ++ sig
+    | none => "ok"
+
+/-- C28: the member list equals the applied config entries folded over the initial configuration -/
+def monitorC28 (fs : List (String × String)) (ops : List String) (out : String) : String :=
+  if lookup fs "k" != some "rs" then "skip"
+  else match parseNodes ((lookup fs "nodes").getD "-") with
+    | none => "bad-case"
+    | some initial =>
+      let rops := ops.map parseRsOp
+      let recs := out.splitOn " | "
+      if recs.length != rops.length + 1 then "bad record-count"
+      else
+        -- entries appended so far at each step
+        let rec go (entries : List LogEntry) (ops : List RsOp) (recs : List String) : Option String :=
+          match recs with
+          | [] => none
+          | rec :: more =>
+            let verdict : Option String :=
+              match bracket rec "M", numField rec "la", numField rec "r" with
+              | some m, some la, some r =>
+                if m == showNodes (rsReference initial entries la).nodes then none
+                else if r > 0 then some "restart-forgets-applied-config"
+                else some "config-entry-skipped-after-failed-one"
+              | _, _, _ => some "unparsable-output"
+            match verdict with
+            | some v => some v
+            | none =>
+              match ops with
+              | [] => none
+              | op :: rest =>
+                let entries' := match op with
+                  | .conf c => entries ++ [.conf c]
+                  | .cmd => entries ++ [.cmd]
+                  | _ => entries
+                go entries' rest more
+        match go [] rops recs with
+        | some sig => "bad " ++ sig
+        | none => "ok"
+
+/-- C27 on `lr`: never grants, timer never expires, no election events, `BecomeFollower` only once
+    the node's own entry is a voter. On `jn`/`cl`: a join is answered only after its entry committed,
+    a join of an existing member is rejected. -/
+def monitorC27 (fs : List (String × String)) (ops : List String) (out : String) : String :=
+  let recs := out.splitOn " | "
+  match lookup fs "k" with
+  | some "lr" =>
+    let bad := recs.findSome? fun rec =>
+      let toks := rec.splitOn " "
+      if toks.any (· == "g1") then some "learner-granted-vote"
+      else if toks.any (· == "x1") then some "learner-election-timer"
+      else match bracket rec "e" with
+        | none => some "unparsable-output"
+        | some e =>
+          let es := e.splitOn ","
+          if es.any (fun x => x == "BC" || x == "BL") then some "learner-started-election"
+          else if es.any (· == "BF") && toks.any (· == "ml") then some "learner-became-voter-without-promotion"
+          else none
+    match bad with | some s => "bad " ++ s | none => "ok"
+  | some "jn" =>
+    match parseNodes ((lookup fs "nodes").getD "-") with
+    | none => "bad-case"
+    | some nodes =>
+      if recs.length != ops.length + 1 then "bad record-count" else
+      -- join index of the k-th join request = value of `l` in the record of that step (if accepted)
+      let steps := ops.zip (recs.drop 1)
+      let joinIdx : List (Nat × Nat × Bool) := steps.filterMap fun (op, rec) =>
+        match parseJnOp op with
+        | .join id _ _ => some (id, (numField rec "l").getD 0, contains nodes id)
+        | _ => none
+      let bad := recs.findSome? fun rec =>
+        match bracket rec "j", numField rec "c" with
+        | some j, some c =>
+          if j == "-" then none else
+          ((j.splitOn ",").zip joinIdx).findSome? fun (e, (id, idx, existing)) =>
+            match e.splitOn ":" with
+            | [i, st] =>
+              if i.toNat? != some id then some "unparsable-output"
+              else if existing && st != "err" then some "join-of-existing-member-accepted"
+              else if st == "ok" && c < idx then some "join-answered-before-commit"
+              else none
+            | _ => some "unparsable-output"
+        | _, _ => some "unparsable-output"
+      match bad with | some s => "bad " ++ s | none => "ok"
+  | some "cl" =>
+    -- a join request is never answered successfully at proposal time
+    if recs.any (fun rec => match bracket rec "e" with | some e => (e.splitOn ",").any (· == "join-answered-ok") | none => false)
+    then "bad join-answered-before-commit" else if ops.any (·.startsWith "J:") then "ok" else "skip"
+  | _ => "skip"
+
+def monitorLine (prop : String) (line : String) : String :=
+  match line.splitOn "\t" with
+  | [case, out] =>
+    let (head, ops) := splitCase case
+    let fs := fields head
+    -- a panic of the implementation is judged by the correspondence (the model must predict it)
+    if out == "panic" then "skip"
+    else if prop == "C26" then monitorC26 fs out
+    else if prop == "C27" then monitorC27 fs ops out
+    else if prop == "C28" then monitorC28 fs ops out
+    else "skip"
+  | _ => "bad-line"
+
+end DEngine.MembDrv
+
+def main (args : List String) : IO UInt32 := do
+  let stdin ← IO.getStdin
+  let stdout ← IO.getStdout
+  match args with
+  | ["model"] => DEngine.Proto.loop stdin stdout DEngine.MembDrv.modelLine; return 0
+  | ["monitor", p] => DEngine.Proto.loop stdin stdout (DEngine.MembDrv.monitorLine p); return 0
+  | _ => IO.eprintln "usage: drv_memb model | monitor <prop>"; return 2
